@@ -354,3 +354,12 @@ func huntModel(r *FuncResult, o *Obligation) bool {
 }
 
 var _ = ssa.NewProgram
+
+// outDir is where evidence and replay files go: /verif, or $GV_OUT for
+// self-test runs against scratch copies (which must not touch /verif/evidence).
+func outDir() string {
+	if d := os.Getenv("GV_OUT"); d != "" {
+		return d
+	}
+	return verifDir()
+}
